@@ -166,6 +166,9 @@ fn main() {
         vec![Path::Ret],
     );
     infs.fns.retain(|f| !matches!(f, R1::Zscore | R1::Minmax));
+    // every NaN is the same null (DESIGN 5.4)
+    let ties_nan = ties.nan_kinds(run.pick(5, 6));
+    let ties_m_nan = ties_m.nan_kinds(run.pick(3, 4));
     if let Some(path) = &run.replay {
         let stored = load_replay(path).unwrap_or_else(|e| {
             eprintln!("MACHINERY-ERROR: {e}");
@@ -177,8 +180,8 @@ fn main() {
         if fam_name == "translation-bigint" {
             bigint::check_word(&syms_from_json(&case["word"]), &mut ctx);
         }
-        for f in [&ties, &ties_m, &perms, &big, &infs] {
-            if fam_name.starts_with(&f.name) {
+        for f in [&ties, &ties_m, &perms, &big, &infs, &ties_nan, &ties_m_nan] {
+            if fam_name.starts_with(&f.name) && fam_name.ends_with("-nan-kinds") == f.name.ends_with("-nan-kinds") {
                 if case["shape"].is_string() {
                     check_structured(f, !run.quick(), 2, &mut ctx);
                 } else if case["trace"].is_string() {
@@ -191,6 +194,8 @@ fn main() {
         std::process::exit(finish_replay(&run, &stored, ctx));
     }
     let mut total = explore_tree(&ties, run.threads);
+    total.merge(explore_tree(&ties_nan, run.threads));
+    total.merge(explore_tree(&ties_m_nan, run.threads));
     total.merge(explore_tree(&ties_m, run.threads));
     total.merge(explore_tree(&big, run.threads));
     total.merge(explore_tree(&infs, run.threads));
@@ -202,6 +207,36 @@ fn main() {
         perms.check_word(w, ctx);
     });
     total.merge(c);
+    {
+        let balpha: Vec<X> = vec![None, Some(0.0), Some(1.0), Some(2.0)];
+        let bw = all_words_upto(balpha.len(), run.pick(4, 5));
+        let bfns = fns();
+        total.merge(par_items(&bw, run.threads, |w, ctx| {
+            ctx.states += 1;
+            if !w.is_empty() {
+                check_backends_value("backends", &bfns, &[], Law::ValueUndef, w, &balpha, cfg_cmp, ctx)
+            }
+        }));
+    }
+    {
+        // a flat stretch after values that are not exact in binary: the running sums keep a rounding residue of
+        // the order 1e-17, far below the variance floor; the normalisations of a window with zero spread are null
+        let mut zf = mk("flat-after-nondyadic", vec![], 0, tys_deep(), vec![Path::Ret]);
+        zf.fns = vec![R1::Zscore, R1::Minmax];
+        let mut shapes: Vec<(String, Vec<X>)> = vec![];
+        for (i, head) in [vec![0.7, 0.1], vec![1.1, 0.3, 0.9], vec![0.7, 0.1, -0.3, 0.2], vec![0.1; 3]].into_iter().enumerate() {
+            for level in [0.0, 0.1, -0.7] {
+                let mut x: Vec<X> = head.iter().map(|v| Some(*v)).collect();
+                x.extend(vec![Some(level); 9]);
+                shapes.push((format!("head{i}+flat({level})"), x.clone()));
+                x[head.len() + 2] = None;
+                shapes.push((format!("head{i}+flat({level})+null"), x));
+            }
+        }
+        let mut t = Ctx::new();
+        check_shapes(&zf, "nondyadic", &shapes, &[2, 3, 5, 8], 2, &mut t);
+        total.merge(t);
+    }
     // translation relation on integers beyond 2^53
     let bw = all_words_upto(4, run.pick(4, 6));
     total.merge(par_items(&bw, run.threads, |w, ctx| {
